@@ -3,6 +3,8 @@ import GrassProofs.Lemmas.ValueNum
 import GrassProofs.Lemmas.ValueEq
 import GrassProofs.Lemmas.ValueEquiv
 import GrassProofs.Lemmas.ValueMap
+import GrassProofs.Lemmas.ValueExt
+import GrassProofs.Lemmas.ValueExtEq
 /-
   C09 — Equality is an equivalence consistent with !=, map keys and index().
 
@@ -534,5 +536,306 @@ theorem C09_full_holds : C09_full :=
    fun a b => C09_ne_eq_not_veq .now a b,
    fun m k => C09_remove_not_contains .now rfl m k,
    fun es => C09_literal_rejects_duplicates .now es⟩
+
+
+/-! ## round 3 — the extended universe: compound units, calculations, function references
+
+  `XV` / `xeq` (Grass/Value.lean) is `Value::eq` with every arm of value/mod.rs:48: numbers with
+  `Complex` units, `Calculation`, `FunctionRef` besides the kinds above.  The laws are inherited
+  through the embedding `enc : XV → Value` (Lemmas/ValueExt.lean), which `xeq` factors through. -/
+
+/-- `xeq` is `veq` on the encodings. -/
+theorem C09_xeq_enc (sw : Sw) (a b : XV) : xeq sw a b = veq sw (enc a) (enc b) := (enc_eq sw a b).symm
+
+/-- Reflexive on NaN-free values of the extended universe (every variant). -/
+theorem C09_xeq_refl (sw : Sw) (a : XV) (h : xnoNaN a = true) : xeq sw a a = true := by
+  rw [C09_xeq_enc]; exact C09_veq_refl sw (enc a) (by rw [noNaN_enc]; exact h)
+
+/-- Symmetric (the code as it stands). -/
+theorem C09_xeq_symm (a b : XV) (ra : xinRange a = true) (rb : xinRange b = true)
+    (wa : xmapWf .now a = true) (wb : xmapWf .now b = true) : xeq .now a b = xeq .now b a := by
+  rw [C09_xeq_enc, C09_xeq_enc]
+  exact C09_veq_symm_now _ _ (by rw [inRange_enc]; exact ra) (by rw [inRange_enc]; exact rb)
+    (by rw [mapWf_enc]; exact wa) (by rw [mapWf_enc]; exact wb)
+
+/-- Transitive (the code as it stands). -/
+theorem C09_xeq_trans (a b c : XV) (ra : xinRange a = true) (rb : xinRange b = true) (rc : xinRange c = true)
+    (h1 : xeq .now a b = true) (h2 : xeq .now b c = true) : xeq .now a c = true := by
+  rw [C09_xeq_enc] at h1 h2 ⊢
+  exact C09_veq_trans_now _ _ _ (by rw [inRange_enc]; exact ra) (by rw [inRange_enc]; exact rb)
+    (by rw [inRange_enc]; exact rc) h1 h2
+
+/-- `==` is an equivalence on the extended universe. -/
+theorem C09_veq_equivalence_ext :
+    (∀ a : XV, xnoNaN a = true → xeq .now a a = true) ∧
+    (∀ a b : XV, xinRange a = true → xinRange b = true → xmapWf .now a = true → xmapWf .now b = true →
+      xeq .now a b = xeq .now b a) ∧
+    (∀ a b c : XV, xinRange a = true → xinRange b = true → xinRange c = true →
+      xeq .now a b = true → xeq .now b c = true → xeq .now a c = true) :=
+  ⟨fun a h => C09_xeq_refl .now a h, C09_xeq_symm, C09_xeq_trans⟩
+
+def xPxEm : XV := .num (.fin 1) (.complex [.px, .em] [])
+def xEmPx : XV := .num (.fin 1) (.complex [.em, .px] [])
+def xCalcIn : XV := .calc .calc (.cons (.op (.number (.fin 1) (.simple .inch)) .plus (.number (.fin 1) (.simple .percent))) .nil)
+def xCalcPx : XV := .calc .calc (.cons (.op (.number (.fin 96) (.simple .px)) .plus (.number (.fin 1) (.simple .percent))) .nil)
+def xCalcCm : XV := .calc .calc (.cons (.op (.number (.fin ((254 : Rat) / 100)) (.simple .cm)) .plus (.number (.fin 1) (.simple .percent))) .nil)
+def xFn1 : XV := .fn (.user ['f', '1'] 10 12)
+def xFn2 : XV := .fn (.user ['f', '2'] 40 42)
+
+-- hypotheses satisfiable, non-trivially: calc(1in + 1%) == calc(96px + 1%) == calc(2.54cm + 1%), inside a map
+example : let m (k : XV) : XV := .map (.cons k xPxEm (.cons xFn1 .null .nil))
+    xinRange (m xCalcIn) = true ∧ xmapWf .now (m xCalcIn) = true ∧ xnoNaN (m xCalcIn) = true ∧
+    xeq .now (m xCalcIn) (m xCalcPx) = true ∧ xeq .now (m xCalcPx) (m xCalcCm) = true ∧
+    xeq .now xCalcIn xCalcPx = true := by
+  decide +kernel
+
+/-- What the code does with the new kinds (kernel-checked instances of `xeq`): compound units are
+    compared as ordered vectors, with no conversion (`px*em ≠ em*px`, `1in/s ≠ 96px/s`); numbers
+    inside calculations are compared like numbers; a function reference equals only itself; none of
+    the new kinds equals a string spelled alike. -/
+theorem C09_now_new_kinds :
+    xeq .now xPxEm xPxEm = true ∧ xeq .now xPxEm xEmPx = false ∧ xeq .now xEmPx xPxEm = false ∧
+    xeq .now (.num (.fin 1) (.complex [.inch] [.s])) (.num (.fin 96) (.complex [.px] [.s])) = false ∧
+    xeq .now xPxEm (.num (.fin 1) (.simple .px)) = false ∧ xeq .now (.num (.fin 1) (.simple .none)) xPxEm = false ∧
+    xeq .now xCalcIn xCalcPx = true ∧ xeq .now xFn1 xFn1 = true ∧ xeq .now xFn1 xFn2 = false ∧
+    xeq .now xFn1 (.fn (.plain ['f', '1'])) = false ∧ xeq .now xFn1 (.str ['f', '1'] false) = false ∧
+    xeq .now xCalcIn (.str "calc(1in + 1%)".toList false) = false := by
+  decide +kernel
+
+/-- Numbers with a `Complex` unit on either side: equal exactly when the unit structures are
+    identical (ordered numerator and denominator) and the values are fuzzily equal; never equal to
+    a number with a simple unit or none. -/
+theorem C09_xnum_complex (sw : Sw) (n1 n2 : Num) (nu1 de1 nu2 de2 : List U) (u : U) :
+    xnumEq sw n1 (.complex nu1 de1) n2 (.complex nu2 de2) =
+      (decide (nu1 = nu2) && decide (de1 = de2) && fuzzyN n1 n2) ∧
+    xnumEq sw n1 (.simple u) n2 (.complex nu2 de2) = false ∧
+    xnumEq sw n1 (.complex nu1 de1) n2 (.simple u) = false :=
+  ⟨xnumEq_complex_complex sw _ _ _ _ _ _, xnumEq_simple_complex sw _ _ _ _ _, xnumEq_complex_simple sw _ _ _ _ _⟩
+
+/-- The extension is conservative: on the old kinds `xeq` is `veq`. -/
+def lift : Value → XV
+  | .null => .null
+  | .bool b => .bool b
+  | .num n u => .num n (.simple u)
+  | .str s q => .str s q
+  | .color r g b a => .color r g b a
+  | .list es sp br => .list (liftL es) sp br
+  | .map ps => .map (liftP ps)
+  | .arglist es kw sp => .arglist (liftL es) (liftP kw) sp
+where
+  liftL : VList → XVList
+    | .nil => .nil
+    | .cons v t => .cons (lift v) (liftL t)
+  liftP : VPairs → XVPairs
+    | .nil => .nil
+    | .cons k v t => .cons (lift k) (lift v) (liftP t)
+
+theorem liftP_length : ∀ (p : VPairs), (lift.liftP p).length = p.length
+  | .nil => rfl
+  | .cons k v t => by simp [lift.liftP, VPairs.length, XVPairs.length, liftP_length t]
+
+theorem any_lift (f : XV → XV → Bool) (g : Value → Value → Bool)
+    (h : ∀ k2 v2, f (lift k2) (lift v2) = g k2 v2) : ∀ (q : VPairs), (lift.liftP q).any f = q.any g
+  | .nil => rfl
+  | .cons k v t => by simp [lift.liftP, VPairs.any, XVPairs.any, h, any_lift f g h t]
+
+mutual
+  theorem C09_xeq_conservative (sw : Sw) : ∀ (a b : Value), xeq sw (lift a) (lift b) = veq sw a b
+    | .null, b => by cases b <;> simp [lift, xeq, veq]
+    | .bool _, b => by cases b <;> simp [lift, xeq, veq]
+    | .num _ _, b => by cases b <;> simp [lift, xeq, veq, xnumEq]
+    | .str _ _, b => by cases b <;> simp [lift, xeq, veq]
+    | .color .., b => by cases b <;> simp [lift, xeq, veq]
+    | .list l1 _ _, b => by
+      cases b <;> simp only [lift, xeq, veq]
+      · rename_i l2 _ _; rw [xeqL_lift sw l1 l2]
+      · rename_i l2 _ _; rw [xeqL_lift sw l1 l2]
+    | .map p1, b => by
+      cases b <;> simp only [lift, xeq, veq]
+      rename_i p2; rw [liftP_length, liftP_length, xsubP_lift sw p1 p2]
+    | .arglist l1 k1 _, b => by
+      cases b <;> simp only [lift, xeq, veq]
+      · rename_i l2 _ _; rw [xeqL_lift sw l1 l2]
+      · rename_i l2 k2 _; rw [xeqL_lift sw l1 l2, xeqKw_lift sw k1 k2]
+  theorem xeqL_lift (sw : Sw) : ∀ (l1 l2 : VList), xeqL sw (lift.liftL l1) (lift.liftL l2) = veqL sw l1 l2
+    | .nil, l2 => by cases l2 <;> simp [lift.liftL, xeqL, veqL]
+    | .cons a t, l2 => by
+      cases l2
+      · simp [lift.liftL, xeqL, veqL]
+      · rename_i b u; simp only [lift.liftL, xeqL, veqL, C09_xeq_conservative sw a b, xeqL_lift sw t u]
+  theorem xeqKw_lift (sw : Sw) : ∀ (k1 k2 : VPairs), xeqKw sw (lift.liftP k1) (lift.liftP k2) = veqKw sw k1 k2
+    | .nil, k2 => by cases k2 <;> simp [lift.liftP, xeqKw, veqKw]
+    | .cons k v t, k2 => by
+      cases k2
+      · simp [lift.liftP, xeqKw, veqKw]
+      · rename_i k' v' u
+        simp only [lift.liftP, xeqKw, veqKw, C09_xeq_conservative sw k k', C09_xeq_conservative sw v v',
+          xeqKw_lift sw t u]
+  theorem xsubP_lift (sw : Sw) : ∀ (p q : VPairs), xsubP sw (lift.liftP p) (lift.liftP q) = subP sw p q
+    | .nil, q => by simp [lift.liftP, xsubP, subP]
+    | .cons k v t, q => by
+      simp only [lift.liftP, xsubP, subP, xsubP_lift sw t q]
+      rw [any_lift _ (fun k2 v2 => veq sw k k2 && veq sw v v2)
+        (fun k2 v2 => by rw [C09_xeq_conservative sw k k2, C09_xeq_conservative sw v v2]) q]
+end
+
+example : xeq .now (lift inch1) (lift px96) = true ∧ veq .now inch1 px96 = true := by decide +kernel
+
+/-! ### keyed operations on the extended universe agree with `==` -/
+
+theorem xany_iff (f : XV → XV → Bool) : ∀ (ps : XVPairs),
+    ps.any f = true ↔ ∃ e ∈ ps.toList, f e.1 e.2 = true
+  | .nil => by simp [XVPairs.any, XVPairs.toList]
+  | .cons k v t => by have ih := xany_iff f t; simp [XVPairs.any, XVPairs.toList, ih]
+
+/-- `map-has-key` finds a key exactly when some key is `==` to the probe … -/
+theorem C09_x_has_key_iff (sw : Sw) (m : XVPairs) (key : XV) :
+    xcontains sw m key = true ↔ ∃ e ∈ m.toList, xeq sw e.1 key = true := by
+  unfold xcontains; rw [xany_iff]
+
+/-- … `map-get` agrees with it … -/
+theorem C09_x_get_isSome_eq_has_key (sw : Sw) (key : XV) : ∀ (m : XVPairs),
+    (xget sw m key).isSome = xcontains sw m key
+  | .nil => rfl
+  | .cons k v t => by
+    have ih := C09_x_get_isSome_eq_has_key sw key t
+    unfold xcontains at ih ⊢
+    simp only [xget, XVPairs.any]
+    cases h : xeq sw k key <;> simp [h, ih]
+
+/-- … `index()` finds a position exactly when some element is `==` to the probe … -/
+theorem C09_x_index_iff (sw : Sw) (v : XV) : ∀ (l : XVList),
+    (xindexOf sw l v).isSome = true ↔ ∃ e ∈ l.toList, xeq sw e v = true
+  | .nil => by simp [xindexOf, XVList.toList]
+  | .cons e t => by
+    have ih := C09_x_index_iff sw v t
+    simp only [xindexOf, XVList.toList, List.mem_cons, exists_eq_or_imp]
+    cases h : xeq sw e v
+    · simp only [Bool.false_eq_true, if_false, Option.isSome_map, false_or]; exact ih
+    · simp
+
+/-- … and after `map-remove` no key is `==` to the probe, the other entries staying in order. -/
+theorem C09_x_remove (sw : Sw) (key : XV) : ∀ (m : XVPairs),
+    (xremove sw m key).toList = m.toList.filter (fun e => !(xeq sw e.1 key))
+  | .nil => rfl
+  | .cons k v t => by
+    simp only [xremove, XVPairs.toList, List.filter_cons]
+    cases h : xeq sw k key <;> simp [h, XVPairs.toList, C09_x_remove sw key t]
+
+theorem C09_x_remove_not_contains (sw : Sw) (m : XVPairs) (key : XV) :
+    xcontains sw (xremove sw m key) key = false := by
+  cases h : xcontains sw (xremove sw m key) key
+  · rfl
+  · obtain ⟨e, he, h2⟩ := (C09_x_has_key_iff sw _ key).1 h
+    rw [C09_x_remove] at he
+    have := (List.mem_filter.1 he).2
+    simp [h2] at this
+
+/-- The per-pair predicate P̂ (`pairAgrees`, evaluated by the driver on grass's answers) holds of the
+    model's own observation on the extended universe. -/
+theorem C09_x_pairAgrees_model (sw : Sw) (a b : XV) : pairAgrees (xpairObs sw a b) = [] := by
+  unfold pairAgrees xpairObs
+  cases h : xeq sw a b <;>
+    simp [h, xget, xcontains, XVPairs.any, xremove, xmerge, xinsert, XVPairs.length,
+      xliteral, xliteralFrom, xindexOf]
+
+example : xeq .now xCalcIn xCalcPx = true ∧ (xget .now (.cons xCalcIn .null .nil) xCalcPx).isSome = true ∧
+    xindexOf .now (.cons xFn2 (.cons xPxEm .nil)) xPxEm = some 1 := by decide +kernel
+
+/-! ### map order over arbitrary histories of operations -/
+
+theorem keys_insert_keyAdd (sw : Sw) (m : VPairs) (k v : Value) :
+    (keys (insert sw m k v)).toList = keyAdd sw (keys m).toList k := by
+  rw [C09_keys_insert, keyAdd, contains_eq_keys]
+
+theorem keys_merge_fold (sw : Sw) : ∀ (b a : VPairs),
+    (keys (merge sw a b)).toList = (keys b).toList.foldl (keyAdd sw) (keys a).toList
+  | .nil, a => by simp [merge, keys, VList.toList]
+  | .cons k v t, a => by
+    simp only [merge, keys, VList.toList, List.foldl_cons]
+    rw [keys_merge_fold sw t (insert sw a k v), keys_insert_keyAdd]
+
+theorem keys_runOp (sw : Sw) (m : VPairs) (op : MapOp) :
+    (keys (runOp sw m op)).toList = keysStep sw (keys m).toList op := by
+  cases op with
+  | set k v => exact keys_insert_keyAdd sw m k v
+  | merge o => exact keys_merge_fold sw o m
+  | remove k => simp only [runOp, keysStep]; exact C09_keys_remove sw m k
+
+/-- For EVERY sequence of `map.set` / `map-merge` / `map-remove` operations the key order of the
+    result is the one computed from the key sequence alone (`keysHist`): each operation appends the
+    keys not `==` to one already there, in the order they arrive, and deletes without reordering —
+    values never matter; a key that is overwritten keeps its place and its first spelling. -/
+theorem C09_map_order_history (sw : Sw) (ops : List MapOp) : ∀ (m : VPairs),
+    (keys (ops.foldl (runOp sw) m)).toList = keysHist sw (keys m).toList ops := by
+  induction ops with
+  | nil => intro m; rfl
+  | cons op t ih =>
+    intro m
+    simp only [List.foldl_cons, keysHist]
+    rw [ih (runOp sw m op), keys_runOp]; rfl
+
+theorem keyAdd_prefix (sw : Sw) (ks : List Value) (k : Value) : ks <+: keyAdd sw ks k := by
+  unfold keyAdd; split
+  · exact List.prefix_refl _
+  · exact List.prefix_append _ _
+
+theorem foldl_keyAdd_prefix (sw : Sw) : ∀ (l ks : List Value), ks <+: l.foldl (keyAdd sw) ks
+  | [], _ => List.prefix_refl _
+  | k :: t, ks => List.IsPrefix.trans (keyAdd_prefix sw ks k) (foldl_keyAdd_prefix sw t _)
+
+def MapOp.isRemove : MapOp → Bool
+  | .remove _ => true
+  | _ => false
+
+/-- A history without removals keeps all old keys, in their order, as a prefix … -/
+theorem C09_map_order_history_grow (sw : Sw) (ops : List MapOp) (h : ops.all (fun o => !o.isRemove) = true) :
+    ∀ (m : VPairs), (keys m).toList <+: (keys (ops.foldl (runOp sw) m)).toList := by
+  induction ops with
+  | nil => intro m; exact List.prefix_refl _
+  | cons op t ih =>
+    intro m
+    simp only [List.all_cons, Bool.and_eq_true] at h
+    simp only [List.foldl_cons]
+    refine List.IsPrefix.trans ?_ (ih h.2 (runOp sw m op))
+    rw [keys_runOp]
+    cases op with
+    | set k v => exact keyAdd_prefix sw _ k
+    | merge o => exact foldl_keyAdd_prefix sw _ _
+    | remove k => simp [MapOp.isRemove] at h
+
+/-- … and a history of removals only leaves a subsequence. -/
+theorem C09_map_order_history_shrink (sw : Sw) (ops : List MapOp) (h : ops.all (fun o => o.isRemove) = true) :
+    ∀ (m : VPairs), ((keys (ops.foldl (runOp sw) m)).toList).Sublist (keys m).toList := by
+  induction ops with
+  | nil => intro m; exact List.Sublist.refl _
+  | cons op t ih =>
+    intro m
+    simp only [List.all_cons, Bool.and_eq_true] at h
+    simp only [List.foldl_cons]
+    refine List.Sublist.trans (ih h.2 (runOp sw m op)) ?_
+    cases op with
+    | remove k => exact C09_order_remove sw m k
+    | set k v => simp [MapOp.isRemove] at h
+    | merge o => simp [MapOp.isRemove] at h
+
+theorem pairsAsList_toList : ∀ (m : VPairs),
+    (pairsAsList m).toList = m.toList.map (fun e => Value.list (.cons e.1 (.cons e.2 .nil)) .space false)
+  | .nil => rfl
+  | .cons k v t => by simp [pairsAsList, VList.toList, VPairs.toList, pairsAsList_toList t]
+
+/-- Every observer of a map walks the same sequence of entries: `map-keys`, `map-values` and the
+    pairs `@each` / `inspect` visit (`SassMap::as_list`) are the projections of one list. -/
+theorem C09_observers_same_order (m : VPairs) :
+    (keys m).toList = m.toList.map (·.1) ∧ (values m).toList = m.toList.map (·.2) ∧
+    (pairsAsList m).toList = m.toList.map (fun e => Value.list (.cons e.1 (.cons e.2 .nil)) .space false) :=
+  ⟨keys_toList m, values_toList m, pairsAsList_toList m⟩
+
+-- a history that sets an existing key under another spelling, removes one through a converted unit and re-adds it
+example : let a : Value := .str ['a'] false
+    let ops := [MapOp.set (.str ['a'] true) .null, MapOp.remove px96, MapOp.merge (.cons inch1 .null (.cons strX .null .nil))]
+    veqL .now (VList.ofList (keysHist .now [a, inch1] ops)) (VList.ofList [a, inch1, strX]) = true ∧
+    veqL .now (keys (ops.foldl (runOp .now) (.cons a one (.cons inch1 two .nil)))) (VList.ofList [a, inch1, strX]) = true := by
+  decide +kernel
 
 end Grass.Value
